@@ -421,13 +421,16 @@ func genCall(t *rapid.T, idx int, ns, s2sFrom string, inHandler bool) *call {
 	case kind <= 4: // plain entry points (any element)
 		c.entry = rapid.SampledFrom(plainEntries).Draw(t, "entry")
 		if inHandler {
-			c.entry = rapid.SampledFrom([]string{"h.EncodeToken", "h.Encode", "h.EncodeElement"}).Draw(t, "hentry")
+			c.entry = rapid.SampledFrom([]string{"h.EncodeToken", "h.Encode", "h.EncodeElement", "h.Mixed", "h.Mixed"}).Draw(t, "hentry")
 		}
 		n := &xt.Node{Name: genTopName(t, ns, ""), Attr: genAttrs(t, idx, true), Children: genKids(t, ns)}
 		fixDup(n)
 		c.node = n
 		switch c.entry {
-		case "Send", "TokenWriter", "h.EncodeToken":
+		case "Send", "TokenWriter", "h.EncodeToken", "h.Mixed":
+			// (h.Mixed: the handler builds ONE element in several calls: the start
+			// tag with EncodeToken, every child through Encode / EncodeElement or
+			// token by token, the end tag with EncodeToken)
 			c.form = "tokens"
 			c.expect = wire.ExpectTopLevel(n, ns, s2sFrom)
 		case "SendElement":
@@ -816,6 +819,33 @@ func (c *call) runHandler(t xmlstream.TokenReadEncoder) error {
 		switch c.entry {
 		case "h.EncodeToken":
 			_, c.err = xmlstream.Copy(t, c.node.Reader())
+		case "h.Mixed":
+			st := xml.StartElement{Name: c.node.Name, Attr: c.node.Attr}
+			if c.err = t.EncodeToken(st); c.err != nil {
+				return
+			}
+			for i, k := range c.node.Children {
+				// other goroutines get every chance to run while the element is open
+				runtime.Gosched()
+				if i%2 == 1 {
+					time.Sleep(200 * time.Microsecond)
+				}
+				switch {
+				case k.IsText():
+					c.err = t.EncodeToken(xml.CharData(k.Text))
+				case i%3 == 0:
+					c.err = t.Encode(mNode{k})
+				case i%3 == 1:
+					_, c.err = xmlstream.Copy(t, k.Reader())
+				default:
+					c.err = t.EncodeElement(mNode{&xt.Node{Name: xml.Name{Space: "urn:verif:inner", Local: "v"}, Children: k.Children}}, xml.StartElement{Name: k.Name, Attr: k.Attr})
+				}
+				if c.err != nil {
+					return
+				}
+			}
+			runtime.Gosched()
+			c.err = t.EncodeToken(st.End())
 		case "h.Encode":
 			c.err = t.Encode(c.value())
 		case "h.EncodeElement":
